@@ -12,6 +12,7 @@ U5  announcer and instances transmit only through queue_send
 """
 from __future__ import annotations
 
+from ..effects import DeepInline, Effects, Slots
 from ..facts import AnalysisError
 from ..terms import const, contains, show, strip_sites
 from ..util import InlineOnly, NoInline, P, Scan, calls_to, engine, loc, param_at
@@ -119,8 +120,48 @@ def check(run, prog, tier):
             and sts.get("args") == P(init, "args") and sts.get("kwargs") == P(init, "kwargs")
         run.ob("U2", f"{init.qual}:keeps-callback-and-arguments", ok, loc(init), "constructor keeps callback, extra arguments and starts open with an empty list")
         okt = len(timers) == 1 and timers[0].delay == tp and timers[0].cb == ("bound", cme, ht.qual) and not timers[0].cbargs
-        run.ob("U2", f"{init.qual}:arms-one-timer-with-the-timeout", okt, loc(init),
-               f"{len(timers)} timer(s): call_later({show(timers[0].delay) if timers else '?'}, {show(timers[0].cb) if timers else '?'})")
+        if not timers:
+            # armed through a helper method: follow it
+            ef0 = Effects(prog, DeepInline(unroll=1), Slots(prog, scan))
+            tms = [e for e in ef0.collect(init, recv=COL) if e.kind == "timer"]
+            okt = len(tms) == 1 and tms[0].ev.cb == ("bound", cme, ht.qual) and tms[0].ev.delay is not None and \
+                (tms[0].ev.delay == tp or (tms[0].ev.delay[0] == "attr" and sts.get(tms[0].ev.delay[2]) == tp))
+            timers = [t_.ev for t_ in tms]
+        armed = len(timers) == 1 and timers[0].cb == ("bound", cme, ht.qual) and not timers[0].cbargs
+        run.ob("U2", f"{init.qual}:arms-the-flush-timer", armed, loc(init),
+               f"{len(timers)} timer(s) armed at construction, target {show(timers[0].cb) if timers else '?'} (must be exactly one, the collector's flush)")
+        run.ob("U2", f"{init.qual}:timer-uses-the-timeout", okt, loc(init),
+               f"call_later({show(timers[0].delay) if timers else '?'}, ...): the delay must be the constructor's timeout argument")
+    # ---- the collected list is changed only by append(): nobody filters, replaces or clears it
+    dm = set()
+    for fi, r, e in scan.all():
+        tgt = None
+        if e.kind == "store" and e.target is not None:
+            tgt = e.target
+        elif e.kind == "call" and e.attrname in ("append", "extend", "insert", "remove", "pop", "clear", "sort", "reverse", "__setitem__", "__delitem__") and e.recv is not None:
+            tgt = e.recv
+        if tgt is None:
+            continue
+        hit = False
+        cur = tgt
+        while cur[0] in ("item", "slice"):
+            cur = cur[1]
+        if cur[0] == "attr" and cur[2] == "data":
+            ty = scan.eng.typer.type_of(cur[1])
+            hit = ty == ("cls", COL) or cur[1] == cme
+        if hit and fi.name != "__init__":
+            dm.add((fi.qual, e.attrname if e.kind == "call" else "assign"))
+    okd = dm == {(app.qual, "append")}
+    run.ob("U4", f"{COL}:collected-list-only-appended", okd, loc(app),
+           "the collected list is only ever extended by SendCollector.append" if okd else
+           f"the collected list is also changed by {sorted(x for x in dm if x != (app.qual, 'append'))}: queued entries can be dropped, replaced or reordered before the flush")
+    # ---- the deadline is fixed at construction: appending neither re-arms nor cancels the timer
+    ef = Effects(prog, DeepInline(unroll=1), Slots(prog, scan))
+    aeffs = ef.collect(app, recv=COL)
+    moved = [e for e in aeffs if e.kind in ("timer", "cancel", "sched")]
+    run.ob("U2", f"{app.qual}:deadline-not-moved", not moved, loc(app),
+           "append() leaves the collection timer alone (an entry leaves at most one timeout after it was queued)" if not moved else
+           f"append() touches the timer ({moved[0].kind} at {moved[0].ev.loc}): every further entry postpones the flush, a steady trickle delays delivery without bound")
     # ---- who may call
     callers = {fi.qual for fi, r, e in scan.callers_of(app.qual)}
     run.ob("U1", f"{app.qual}:only-queue_send-appends", callers == {qs.qual}, loc(app), f"append is called by {sorted(callers)}")
@@ -144,3 +185,22 @@ def check(run, prog, tier):
     # positive control for the who-may-call query: queue_send itself has callers
     pos = {fi.qual for fi, r, e in scan.callers_of(qs.qual)}
     run.floor("U5-query-control", len(pos), 1)
+
+
+TIMING_ONLY = ("timer-uses-the-timeout", "deadline-not-moved")
+
+
+def queue_exactly_once(run, prog, tier, rule, timing=False):
+    """'what is queued is transmitted exactly once, in order, to its destination' as supporting obligations of
+    another property (the announcer's answers / offers / stop-offers all travel through queue_send)"""
+    from .. import report
+    sub = report.Run("C15", tier, run.seed, quiet=True)
+    check(sub, prog, tier)
+    n = 0
+    for o in sub.obs:
+        if not timing and any(k in o.construct for k in TIMING_ONLY):
+            continue  # *when* the flush happens matters only to properties that bound the delay
+        n += 1
+        run.ob(rule, o.construct, o.ok, o.loc, o.msg, o.detail, o.nontrivial)
+    run.floor(rule, n, 12)
+    run.paths += sub.paths
